@@ -24,7 +24,23 @@ const (
 	flagForeign = "F4:rule-field-foreign-to-matched-type"
 	flagMixAll  = "F5:all-rule-over-types-with-different-operations"
 	flagOrder   = "F6:acl-order-differs-from-source-text"
+	flagShared  = "F8:rule-fields-changed-after-declaration"
 )
+
+// fieldsChanged: some rule of the built application reports a field list other than the one it was declared with
+func fieldsChanged(sc *Scenario, app appdef.IAppDef) bool {
+	if sc.Vsql {
+		return false
+	}
+	_, drs := declared(sc)
+	all := app.ACL()
+	for i, r := range drs {
+		if i < len(all) && len(r.Fields) > 0 && strings.Join(all[i].Filter().Fields(), ",") != strings.Join(r.Fields, ",") {
+			return true
+		}
+	}
+	return false
+}
 
 type mixedAllRule struct {
 	ws  appdef.QName
@@ -144,6 +160,7 @@ func observe(sc *Scenario) (appdef.IAppDef, error) {
 	}
 	mixed := mixedAll(sc, app)
 	orderLost := sc.Vsql && !textOrderKept(sc, app)
+	changed := fieldsChanged(sc, app)
 	for i := range sc.Queries {
 		q := &sc.Queries[i]
 		q.Flags = nil
@@ -153,6 +170,9 @@ func observe(sc *Scenario) (appdef.IAppDef, error) {
 		}
 		if orderLost {
 			q.Flags = addFlag(q.Flags, flagOrder)
+		}
+		if changed {
+			q.Flags = addFlag(q.Flags, flagShared)
 		}
 		if w, t := app.Workspace(qn(q.Ws)), app.Workspace(qn(q.Ws)).Type(qn(q.Res)); t != appdef.NullType {
 			for _, m := range mixed {
@@ -217,6 +237,9 @@ func observe(sc *Scenario) (appdef.IAppDef, error) {
 		}
 		if orderLost {
 			p.Flags = addFlag(p.Flags, flagOrder)
+		}
+		if changed {
+			p.Flags = addFlag(p.Flags, flagShared)
 		}
 		for _, m := range mixed {
 			if w.Inherits(m.ws) {
